@@ -46,11 +46,14 @@ inductive Abi | preview1 | unstable
 /-! ## structural facts of the source the model branches on (from `Gen.Wasi`) -/
 
 structure Cfg where
+  /-- `wasiFileDescriptorClose` assigns `path = NULL` in the table after `free` -/
   closeClearsPath : Bool
-  closeRejectsEmpty : Bool
-  readdirGuardsNullPath : Bool
-  fdstatGuardsNullPath : Bool
-  filestatGuardsNullPath : Bool
+  /-- `wasiFileDescriptorGet` fails for a slot with no native fd, no DIR and no path -/
+  getRejectsClosed : Bool
+  /-- errno returned when `descriptor.path == NULL` is tested before the `strcpy`; `none` = no test -/
+  readdirNullPath : Option Nat
+  fdstatNullPath : Option Nat
+  filestatNullPath : Option Nat
   seekChecksWhenceFirst : Bool
   pwriteOffsetBits : Abi → Nat
   preadOffsetBits : Abi → Nat
@@ -60,10 +63,10 @@ structure Cfg where
 
 def Cfg.ofGen : Cfg where
   closeClearsPath := Gen.Wasi.closeClearsPath
-  closeRejectsEmpty := Gen.Wasi.closeRejectsEmpty
-  readdirGuardsNullPath := Gen.Wasi.readdirGuardsNullPath
-  fdstatGuardsNullPath := Gen.Wasi.fdstatGuardsNullPath
-  filestatGuardsNullPath := Gen.Wasi.filestatGuardsNullPath
+  getRejectsClosed := Gen.Wasi.getRejectsClosed
+  readdirNullPath := Gen.Wasi.readdirNullPath
+  fdstatNullPath := Gen.Wasi.fdstatNullPath
+  filestatNullPath := Gen.Wasi.filestatNullPath
   seekChecksWhenceFirst := Gen.Wasi.seekChecksWhenceFirst
   pwriteOffsetBits := fun | .preview1 => Gen.Wasi.fd_pwrite_offset_bits_p1 | .unstable => Gen.Wasi.fd_pwrite_offset_bits_un
   preadOffsetBits := fun | .preview1 => Gen.Wasi.fd_pread_offset_bits_p1 | .unstable => Gen.Wasi.fd_pread_offset_bits_un
@@ -145,8 +148,12 @@ inductive Res
 
 /-! ## the descriptor table (`wasi.c` 439–562) -/
 
-/-- `wasiFileDescriptorGet`: `MUST (wasiFD < wasi.fds.length)` -/
-def getDesc {σ} (s : St σ) (n : Nat) : Option Desc := s.fds[n]?
+/-- `wasiFileDescriptorGet`: `MUST (wasiFD < wasi.fds.length)`, then (if the source has it)
+    `MUST (fd >= 0 || dir != NULL || path != NULL)` -/
+def getDesc {σ} (cfg : Cfg) (s : St σ) (n : Nat) : Option Desc :=
+  match s.fds[n]? with
+  | none => none
+  | some d => if cfg.getRejectsClosed ∧ d.fd < 0 ∧ d.dir = none ∧ d.path = none then none else some d
 
 /-- read of a `malloc`ed string -/
 def readHeap (heap : List Cell) (h : HeapId) : Out Bytes :=
@@ -318,8 +325,8 @@ def doRead {σ} (w : MW) (h : σ) (iovs cnt res : Nat)
     ret w2 h' 0
 
 /-- `wasiFDSeek` -/
-def doSeek {σ} (H : Host σ) (s : St σ) (w : MW) (n : Nat) (off : Int) (wh : Whence) (res : Nat) : Out (MW × σ × Res) :=
-  match getDesc s n with
+def doSeek {σ} (cfg : Cfg) (H : Host σ) (s : St σ) (w : MW) (n : Nat) (off : Int) (wh : Whence) (res : Nat) : Out (MW × σ × Res) :=
+  match getDesc cfg s n with
   | none => ret w s.host BADF
   | some d =>
     if d.fd < 0 then ret w s.host BADF else
@@ -375,8 +382,8 @@ def storeFilestat (abi : Abi) (w : MW) (p : Nat) (st : Stat) : Out MW := do
   storeRows w0 p st rows
 
 /-- prologue of the path calls: `Get` or EBADF, `path == NULL` → EBADF, `resolvePath` or EINVAL -/
-def pathPrologue {σ} (s : St σ) (w : MW) (n ptr len : Nat) : Out (Except Nat Bytes) :=
-  match getDesc s n with
+def pathPrologue {σ} (cfg : Cfg) (s : St σ) (w : MW) (n ptr len : Nat) : Out (Except Nat Bytes) :=
+  match getDesc cfg s n with
   | none => .val (.error BADF)
   | some d =>
     match d.path with
@@ -388,8 +395,8 @@ def pathPrologue {σ} (s : St σ) (w : MW) (n ptr len : Nat) : Out (Except Nat B
       | some p => .val (.ok p)
 
 /-- a path call that performs one host call on the resolved path -/
-def simplePathCall {σ} (H : Host σ) (s : St σ) (w : MW) (name : String) (n ptr len : Nat) : Out (MW × σ × Res) := do
-  match ← pathPrologue s w n ptr len with
+def simplePathCall {σ} (cfg : Cfg) (H : Host σ) (s : St σ) (w : MW) (name : String) (n ptr len : Nat) : Out (MW × σ × Res) := do
+  match ← pathPrologue cfg s w n ptr len with
   | .error e => ret w s.host e
   | .ok p =>
     match H.pathCall s.host name [p] with
@@ -398,9 +405,9 @@ def simplePathCall {σ} (H : Host σ) (s : St σ) (w : MW) (name : String) (n pt
     | (h', .ok _) => ret w h' 0
 
 /-- `fstat(descriptor.fd)` or `stat(strcpy(nativePath, descriptor.path))` -/
-def fdOrPathStat {σ} (H : Host σ) (s : St σ) (d : Desc) (guard : Bool) : Out (Except Nat (R Stat)) :=
+def fdOrPathStat {σ} (H : Host σ) (s : St σ) (d : Desc) (guard : Option Nat) : Out (Except Nat (R Stat)) :=
   if d.fd ≥ 0 then .val (.ok (H.fstat s.host d.fd))
-  else if guard ∧ d.path = none then .val (.error BADF)
+  else if guard.isSome ∧ d.path = none then .val (.error (guard.getD 0))
   else do
     let p ← derefPath s.heap d.path
     .val (.ok (H.stat s.host p))
@@ -416,26 +423,26 @@ def stepRO {σ} (cfg : Cfg) (H : Host σ) (abi : Abi) (s : St σ) (c : ROCall) :
   let w : MW := ⟨s.mem, []⟩
   match c with
   | .fdWrite n iovs cnt res =>
-    match getDesc s n with
+    match getDesc cfg s n with
     | none => ret w s.host BADF
     | some d =>
       if d.fd < 0 then ret w s.host BADF else
       doWrite H w s.host iovs cnt res (fun h bufs => H.writev h d.fd bufs)
   | .fdPwrite n iovs cnt off res =>
-    match getDesc s n with
+    match getDesc cfg s n with
     | none => ret w s.host BADF
     | some d =>
       if d.fd < 0 then ret w s.host BADF else
       doWrite H w s.host iovs cnt res (fun h bufs =>
         wrapPositional H h d.fd (asOffT (cfg.pwriteOffsetBits abi) off) (fun h' => H.writev h' d.fd bufs))
   | .fdRead n iovs cnt res =>
-    match getDesc s n with
+    match getDesc cfg s n with
     | none => ret w s.host BADF
     | some d =>
       if d.fd < 0 then ret w s.host BADF else
       doRead w s.host iovs cnt res (fun h lens => H.readv h d.fd lens)
   | .fdPread n iovs cnt off res =>
-    match getDesc s n with
+    match getDesc cfg s n with
     | none => ret w s.host BADF
     | some d =>
       if d.fd < 0 then ret w s.host BADF else
@@ -445,21 +452,21 @@ def stepRO {σ} (cfg : Cfg) (H : Host σ) (abi : Abi) (s : St σ) (c : ROCall) :
     if cfg.seekChecksWhenceFirst then
       match whenceOf abi whence with
       | none => ret w s.host INVAL
-      | some wh => doSeek H s w n (asOffT (cfg.seekOffsetBits abi) off) wh res
+      | some wh => doSeek cfg H s w n (asOffT (cfg.seekOffsetBits abi) off) wh res
     else
-      match getDesc s n with
+      match getDesc cfg s n with
       | none => ret w s.host BADF
       | some d =>
         if d.fd < 0 then ret w s.host BADF else
         match whenceOf abi whence with
         | none => ret w s.host INVAL
-        | some wh => doSeek H s w n (asOffT (cfg.seekOffsetBits abi) off) wh res
-  | .fdTell n res => doSeek H s w n 0 .cur res
+        | some wh => doSeek cfg H s w n (asOffT (cfg.seekOffsetBits abi) off) wh res
+  | .fdTell n res => doSeek cfg H s w n 0 .cur res
   | .fdFdstatGet n res =>
-    match getDesc s n with
+    match getDesc cfg s n with
     | none => ret w s.host BADF
     | some d => do
-      match ← fdOrPathStat H s d cfg.fdstatGuardsNullPath with
+      match ← fdOrPathStat H s d cfg.fdstatNullPath with
       | .error e => ret w s.host e
       | .ok .unmodelled => retUnmodelled w s.host
       | .ok (.err e) => ret w s.host (wasiErrno e)
@@ -485,7 +492,7 @@ def stepRO {σ} (cfg : Cfg) (H : Host σ) (abi : Abi) (s : St σ) (c : ROCall) :
           let w4 ← w3.store (res + 16) (leBytes 8 inh)
           ret w4 s.host 0
   | .fdDatasync n =>
-    match getDesc s n with
+    match getDesc cfg s n with
     | none => ret w s.host BADF
     | some d =>
       if d.fd < 0 then ret w s.host cfg.datasyncNegFd else
@@ -494,7 +501,7 @@ def stepRO {σ} (cfg : Cfg) (H : Host σ) (abi : Abi) (s : St σ) (c : ROCall) :
       | (h', .err e) => ret w h' (wasiErrno e)
       | (h', .ok _) => ret w h' 0
   | .fdSync n =>
-    match getDesc s n with
+    match getDesc cfg s n with
     | none => ret w s.host BADF
     | some d =>
       if d.fd < 0 then ret w s.host cfg.syncNegFd else
@@ -503,7 +510,7 @@ def stepRO {σ} (cfg : Cfg) (H : Host σ) (abi : Abi) (s : St σ) (c : ROCall) :
       | (h', .err e) => ret w h' (wasiErrno e)
       | (h', .ok _) => ret w h' 0
   | .fdPrestatGet n ptr =>
-    match getDesc s n with
+    match getDesc cfg s n with
     | none => ret w s.host BADF
     | some d =>
       match d.path with
@@ -514,7 +521,7 @@ def stepRO {σ} (cfg : Cfg) (H : Host σ) (abi : Abi) (s : St σ) (c : ROCall) :
         let w2 ← w1.store (ptr + 4) (leBytes 4 p.length)
         ret w2 s.host 0
   | .fdPrestatDirName n ptr len =>
-    match getDesc s n with
+    match getDesc cfg s n with
     | none => ret w s.host BADF
     | some d =>
       match d.path with
@@ -524,10 +531,10 @@ def stepRO {σ} (cfg : Cfg) (H : Host σ) (abi : Abi) (s : St σ) (c : ROCall) :
         let w1 ← w.store ptr (p.take (min p.length len))
         ret w1 s.host 0
   | .fdFilestatGet n ptr =>
-    match getDesc s n with
+    match getDesc cfg s n with
     | none => ret w s.host BADF
     | some d => do
-      match ← fdOrPathStat H s d cfg.filestatGuardsNullPath with
+      match ← fdOrPathStat H s d cfg.filestatNullPath with
       | .error e => ret w s.host e
       | .ok .unmodelled => retUnmodelled w s.host
       | .ok (.err e) => ret w s.host (wasiErrno e)
@@ -535,7 +542,7 @@ def stepRO {σ} (cfg : Cfg) (H : Host σ) (abi : Abi) (s : St σ) (c : ROCall) :
         let w' ← storeFilestat abi w ptr st
         ret w' s.host 0
   | .pathFilestatGet n _ pathPtr pathLen statPtr => do
-    match ← pathPrologue s w n pathPtr pathLen with
+    match ← pathPrologue cfg s w n pathPtr pathLen with
     | .error e => ret w s.host e
     | .ok p =>
       match H.stat s.host p with
@@ -545,10 +552,10 @@ def stepRO {σ} (cfg : Cfg) (H : Host σ) (abi : Abi) (s : St σ) (c : ROCall) :
         let w' ← storeFilestat abi w statPtr st
         ret w' s.host 0
   | .pathRename ofd op ol nfd np nl =>
-    match getDesc s ofd with
+    match getDesc cfg s ofd with
     | none => ret w s.host BADF
     | some od =>
-      match getDesc s nfd with
+      match getDesc cfg s nfd with
       | none => ret w s.host BADF
       | some nd =>
         match od.path with
@@ -569,11 +576,11 @@ def stepRO {σ} (cfg : Cfg) (H : Host σ) (abi : Abi) (s : St σ) (c : ROCall) :
                 | (h', .unmodelled) => retUnmodelled w h'
                 | (h', .err e) => ret w h' (wasiErrno e)
                 | (h', .ok _) => ret w h' 0
-  | .pathUnlinkFile n p l => simplePathCall H s w "unlink" n p l
-  | .pathRemoveDirectory n p l => simplePathCall H s w "rmdir" n p l
-  | .pathCreateDirectory n p l => simplePathCall H s w "mkdir" n p l
+  | .pathUnlinkFile n p l => simplePathCall cfg H s w "unlink" n p l
+  | .pathRemoveDirectory n p l => simplePathCall cfg H s w "rmdir" n p l
+  | .pathCreateDirectory n p l => simplePathCall cfg H s w "mkdir" n p l
   | .pathSymlink op ol n np nl =>
-    match getDesc s n with
+    match getDesc cfg s n with
     | none => ret w s.host BADF
     | some d =>
       if ol ≥ PATH_MAX then ret w s.host INVAL else do
@@ -590,7 +597,7 @@ def stepRO {σ} (cfg : Cfg) (H : Host σ) (abi : Abi) (s : St σ) (c : ROCall) :
           | (h', .err e) => ret w h' (wasiErrno e)
           | (h', .ok _) => ret w h' 0
   | .pathReadlink n p l _ _ _ => do
-    match ← pathPrologue s w n p l with
+    match ← pathPrologue cfg s w n p l with
     | .error e => ret w s.host e
     | .ok path =>
       match H.pathCall s.host "readlink" [path] with
@@ -600,10 +607,9 @@ def stepRO {σ} (cfg : Cfg) (H : Host σ) (abi : Abi) (s : St σ) (c : ROCall) :
 
 /-- `wasiFileDescriptorClose` + `fd_close` -/
 def fdClose {σ} (cfg : Cfg) (H : Host σ) (s : St σ) (n : Nat) : Out (St σ × Res) :=
-  match getDesc s n with
+  match getDesc cfg s n with
   | none => .val (s, .errno BADF [])
   | some d =>
-    if cfg.closeRejectsEmpty ∧ d.fd < 0 ∧ d.dir = none ∧ d.path = none then .val (s, .errno BADF []) else
     -- closedir / close; a failure returns false before anything is freed or reset
     let hostR : σ × R Unit :=
       match d.dir with
@@ -624,7 +630,7 @@ def fdClose {σ} (cfg : Cfg) (H : Host σ) (s : St σ) (n : Nat) : Out (St σ ×
 /-- `wasiFDReaddir` up to the listing loop -/
 def fdReaddir {σ} (cfg : Cfg) (H : Host σ) (s : St σ) (n _buf len cookie used : Nat) : Out (St σ × Res) :=
   let w : MW := ⟨s.mem, []⟩
-  match getDesc s n with
+  match getDesc cfg s n with
   | none => .val (s, .errno BADF [])
   | some d => do
     -- lazily open the directory stream
@@ -632,7 +638,7 @@ def fdReaddir {σ} (cfg : Cfg) (H : Host σ) (s : St σ) (n _buf len cookie used
       (match d.dir with
        | some _ => .val (.ok s)
        | none =>
-         if cfg.readdirGuardsNullPath ∧ d.path = none then .val (.error (s, .errno BADF [])) else do
+         if cfg.readdirNullPath.isSome ∧ d.path = none then .val (.error (s, .errno (cfg.readdirNullPath.getD 0) [])) else do
          let p ← derefPath s.heap d.path
          if cookie ≠ 0 then .val (.error (s, .errno BADF [])) else
          match H.opendir s.host p with
@@ -651,11 +657,11 @@ def fdReaddir {σ} (cfg : Cfg) (H : Host σ) (s : St σ) (n _buf len cookie used
 def hasBit (v mask : Nat) : Bool := v &&& mask != 0
 
 /-- `wasiPathOpen` -/
-def pathOpen {σ} (H : Host σ) (s : St σ)
+def pathOpen {σ} (cfg : Cfg) (H : Host σ) (s : St σ)
     (dirfd _dirflags pathPtr pathLen oflags rightsBase _rightsInh fdflags fdPtr : Nat) : Out (St σ × Res) :=
   let w : MW := ⟨s.mem, []⟩
   do
-  match ← pathPrologue s w dirfd pathPtr pathLen with
+  match ← pathPrologue cfg s w dirfd pathPtr pathLen with
   | .error e => .val (s, .errno e [])
   | .ok p =>
     let isRead := hasBit rightsBase Gen.Wasi.readRightsMask
@@ -690,7 +696,7 @@ def step {σ} (cfg : Cfg) (H : Host σ) (abi : Abi) (s : St σ) : Call → Out (
   | .ro c => (stepRO cfg H abi s c).map' fun (w, h, r) => ({ s with mem := w.mem, host := h }, r)
   | .fdClose n => fdClose cfg H s n
   | .fdReaddir n buf len cookie used => fdReaddir cfg H s n buf len cookie used
-  | .pathOpen a b c d e f g h i => pathOpen H s a b c d e f g h i
+  | .pathOpen a b c d e f g h i => pathOpen cfg H s a b c d e f g h i
 
 /-- a history -/
 def run {σ} (cfg : Cfg) (H : Host σ) (s : St σ) : List (Abi × Call) → Out (St σ × List Res)
